@@ -17,12 +17,26 @@ def load_mutants():
             m = importlib.util.module_from_spec(spec)
             spec.loader.exec_module(m)
             muts += m.MUTANTS
+    # the seeded changes kept under /verif/seeded are mutants too: each must be reported by the check of its property
+    sd = os.path.join(VERIF, 'seeded')
+    for d in sorted(os.listdir(sd)) if os.path.isdir(sd) else []:
+        mp = os.path.join(sd, d, 'meta.json')
+        if os.path.exists(mp):
+            meta = json.load(open(mp))
+            keys = [k.split('|')[0] for k in meta.get('checks', {}).get(meta['property'], {}).get('violation_keys', [])][:1]
+            muts.append({'id': 'seed-' + d, 'props': [meta['property']], 'expect': 'fire', 'keys': keys, 'patch': os.path.join(sd, d, 'patch.diff')})
     return muts
 
 
 def git_clean():
     r = subprocess.run(['git', '-C', REPO, 'status', '--porcelain'], capture_output=True, text=True)
     return r.stdout.strip() == ''
+
+
+def apply_patch(path):
+    r = subprocess.run(['git', '-C', REPO, 'apply', path], capture_output=True, text=True)
+    if r.returncode != 0:
+        raise RuntimeError('patch does not apply: %s: %s' % (path, r.stderr.strip()[:200]))
 
 
 def apply(edits):
@@ -49,7 +63,9 @@ def main():
         if want and not any(m['id'].startswith(w) for w in want):
             continue
         try:
-            apply(m['edits'])
+            if m.get('patch'):
+                apply_patch(m['patch'] if os.path.isabs(m['patch']) else os.path.join(HERE, m['patch']))
+            apply(m.get('edits', []))
             for prop in m['props']:
                 r = subprocess.run([os.path.join(VERIF, 'check'), prop], capture_output=True, text=True, cwd=VERIF)
                 out = r.stdout + r.stderr
